@@ -11,8 +11,10 @@ TECH = 'deterministic simulation with fault injection: seeded schedule/fault sea
 CLAIMED = {
     'C13': dict(
         level='exploration',
-        text='Seeded search over generated module sets, read-duration/failure scripts, run-time interval changes, '
-             'immediate triggers and clock jumps; the real poll thread body runs in virtual time under the '
+        text='Seeded search over generated module sets (own or shared poll thread, optionally a module with enablePoll = '
+             'False and a configured start-up write on the shared thread, which must never be polled), read-duration/'
+             'failure scripts (incl. TimeoutSECoPError/NotImplementedSECoPError), run-time interval changes, '
+             'immediate triggers (also back to back) and clock jumps; the real poll thread body runs in virtual time under the '
              'deterministic scheduler and the recorded call log is checked against staleness/starvation bounds. '
              'Sampling, not proof: a clean batch is evidence.',
         note='Trusted: the simulation kernel (baton-passing real threads, virtual clock), the scripted drivers, '
@@ -37,8 +39,8 @@ CLAIMED['C05'] = dict(
     level='exploration',
     text='Seeded search over driver-side histories (reads ok/raising/invalid, writes, assignments equal/different/'
          'invalid, explicit and repeated error announcements, gaps below/above the suppression window) from 1..3 '
-         'tasks against generated parameters of all datatypes and all omit_unchanged_within/update_unchanged '
-         'settings. Judged (i) against a register model fed from the operations and (ii) by replaying the byte stream '
+         'tasks against generated parameters of all datatypes (64 bit integers, strings with lone surrogates as '
+         'surrogateescape decoding gives them) and all omit_unchanged_within/update_unchanged settings. Judged (i) against a register model fed from the operations and (ii) by replaying the byte stream '
          'of every activated connection (one activated on the quiet node, 0..2 more from the start, optionally one '
          'activating in the middle of the history) against the ground-truth cache history (order, no phantom state, '
          'no state skipped, final = cache).',
@@ -100,7 +102,8 @@ CLAIMED['C12'] = dict(
          'reply/changed/error_read, unknown parameters, module shorthand, malformed messages, future timestamps) with '
          'callback (un)registration at node/module/parameter level incl. raising and one-shot callbacks, ordered against '
          'the rx thread by sync markers; (e2e) real client <-> real node with recording drivers, '
-         'setParameter/getParameter/execCommand over generated parameters of every datatype; (proxy) the same through '
+         'setParameter/getParameter/execCommand over generated parameters of every datatype (incl. integers beyond '
+         '2**53), two concurrent writers through one client; (proxy) the same through '
          'a real node of frappy.proxy modules, with a connection drop; in both while the drivers of the node publish '
          'values of their own (second sender on the connection). Cache = import of the last message, timestamp '
          'never in the future, each callback exactly once per message in order, driver argument = caller value, '
@@ -115,12 +118,14 @@ CLAIMED['C16'] = dict(
     text='Seeded search over 2..4 caller tasks (communicate, writeline, multicomm with delays) plus the poll thread '
          'against real StringIO/BytesIO + AsynTcp and a scripted device (token echo, reply delays up to beyond the '
          'time-out, unsolicited messages in segments of their own or in the segment of a reply, incomplete messages '
-         'followed by silence, close before/inside/after a reply, refused reconnects), with network chunking and '
+         'followed by silence, close before/inside/after a reply, refused reconnects; LF or CR LF lines, fixed or '
+         'variable-length byte replies; optionally a reconnect callback which talks to the device), with network chunking and '
          'pre-emption at lock operations and line events of io.py/asynconn.py. Checked: own reply per command (stale = '
          'read from the socket before the command left, judged on the byte stream by the event number of the recv), '
          'communicator lock (no overlapping in-flight windows, no foreign command '
-         'inside a multicomm), delays honoured, failures are communication errors within the time-out bound, reconnect '
-         'rate of callers, reconnect callbacks exactly once per reconnect, healing and poll resumption after faults stop.',
+         'inside a multicomm), delays honoured, failures are communication errors within the time-out bound, every call '
+         'returns (a run that cannot end with a call open is a violation), reconnect rate of callers (dated by the '
+         'moment the rate limiter was consulted), reconnect callbacks exactly once per reconnect, healing and poll resumption after faults stop.',
     note='Trusted: simulation kernel, simulated TCP, scripted device. Bytes arriving after a command was sent cannot '
          'be told from its reply by any implementation and are exempt. Known findings: is_connected set after a '
          'concurrent close; two simultaneous reconnect attempts.',
@@ -133,8 +138,8 @@ CLAIMED['C17'] = dict(
          'configured values) and operation history (set, assign, save, load, factory reset, restart) the real '
          'PersistentMixin is re-run once for EVERY file-system operation of every step x {error, torn write, crash '
          'before / after / inside} under two write models (unbuffered, buffered until close) - exhaustive per history; '
-         'the stored file is corrupted by truncation at every byte, sampled bit flips, type/key changes and an unreadable '
-         'file. After each crash the file must be the previous or the new complete snapshot and a restart from the '
+         'the stored file is corrupted by truncation at every byte, sampled bit flips, type/key changes, per-datatype '
+         'outdated entries (struct member missing/unknown, out of range, wrong length, ...) and an unreadable file. After each crash the file must be the previous or the new complete snapshot and a restart from the '
          'directory must restore it (configuration wins); a failed save must be retried by the next save; corrupt '
          'files never prevent module creation and unusable entries fall back individually.',
     note='Trusted: sim.fs interposer (process-crash model: completed system calls survive), dispatcher/secnode stubs. '
@@ -224,14 +229,16 @@ CLAIMED['C10'] = dict(
 CLAIMED['C18'] = dict(
     level='exploration',
     text='Seeded search over generated layouts (StructParam with combined or member access methods, FloatEnumParam label '
-         'sets, limit parameters min/max/limits, 1..3 HasOutputModule controllers on one HasControlledBy output) and '
+         'sets, limit parameters min/max/limits, 1..3 HasOutputModule controllers on one HasControlledBy output, '
+         'optionally a second output with a controller of its own) and '
          'operation histories issued alternately by a wire client and by the driver while the poll thread runs, with '
          'one-shot hardware faults inside struct accesses and, where frappy establishes consistency inside the update '
          'lock, a concurrent driver-side assignment. After '
          'every operation: struct and members agree member by member and a write leaves the other members alone; the '
          'cached float value belongs to the cached index and a float write selects the closest allowed value; no value '
          'outside the limits in force reaches the driver and an inverted limits pair is refused; at most one controller '
-         'is active, the output names exactly it, a take-over switches the previous one off.',
+         'is active, the output names exactly it, a take-over switches the previous one off, operations on one output '
+         'leave the other output alone.',
     note='Trusted: simulation kernel, generated classes with hardware registers. Operations of client and driver are '
          'issued one after the other (the invariants are quiescent-point invariants); the poll thread runs concurrently; '
          'the concurrent assignment is limited to index writes and to structs with combined access methods.',
